@@ -3,6 +3,7 @@ import Verif.Spec.Isa
 import Verif.Generated.OpTable
 import Verif.Generated.Cycles
 import Driver.Util
+import Driver.Text
 /-
   `run` verb: execute the Impl model on a sparse recording bus, compare with what the Go
   code did on the same input, and check the Go result against the executable specification.
@@ -236,6 +237,47 @@ def handleRuns (line : String) : String :=
         let v := if go == outsS || outsS.contains "?" then "specok" else "VIOL C02:runs:spec=" ++ "_".intercalate outsS ++ s!"@model={m}"
         s!"{d} | {v} | runs"
     | _ => "bad"
+  | _ => "bad"
+
+/-- `machcount SPEC MODEL CODE => halt|error | addr:count ...`: a straight-line program inside the plain RAM of a real
+    machine; the access statistics of the machine afterwards against the fetches, reads and writes of the
+    specification's own run of the same program on flat memory (C03 on the real memory models) -/
+def handleMachCount (line : String) : String :=
+  match line.splitOn " => " with
+  | [req, res] =>
+    match words req, res.splitOn " | " with
+    | [_, spec, m, codeS], gres :: rest =>
+      let parsed : Option (CpuModel × List Nat) := do
+        let model ← if m == "0" then some CpuModel.m6502 else if m == "1" then some CpuModel.m65C02 else none
+        some (model, ← unhex codeS)
+      match parsed with
+      | none => "bad"
+      | some (model, code) =>
+        let mem0 : List (Addr × Byte) := code.zipIdx.map fun (b, i) => (BitVec.ofNat 16 (0x0400 + i), BitVec.ofNat 8 b)
+        let bus0 : SBus := { mem := mem0.reverse, trace := #[], budget := 100000 }
+        match specRun model 2000 ⟨0x0400, 0xFF, 0, 0, 0, 0⟩ bus0 0 with
+        | none => "agree | specok | machcount.unspecified"
+        | some (_, b, _) =>
+          -- the halting BRK's own fetch is an access too
+          let evs := b.trace.toList
+          let counts : List (Nat × Nat) := evs.foldl (fun (acc : List (Nat × Nat)) e =>
+            let a := e.addr.toNat
+            match acc.find? (·.1 == a) with
+            | some (_, n) => (a, n + 1) :: acc.filter (·.1 != a)
+            | none => (a, 1) :: acc) []
+          let sorted := counts.mergeSort (fun x y => decide (x.1 ≤ y.1))
+          let want := " ".intercalate (sorted.map fun (a, n) => s!"{String.ofList (Nat.toDigits 16 a)}:{n}")
+          let got := " ".intercalate (words (" | ".intercalate rest))
+          let g := gres.trimAscii.toString
+          if g == "hostcrash" then s!"agree | VIOL C11:hostcrash:machcount:{spec} | machcount"
+          else if g == "halt" && got == want then "agree | specok | machcount"
+          else
+            -- the first address whose count differs
+            let gl := (words got)
+            let wl := (words want)
+            let firstDiff := (gl.filter (fun t => !wl.contains t) ++ wl.filter (fun t => !gl.contains t)).head?.getD "?"
+            s!"DIFF trace:machine-counts | VIOL C03:machine-counts:{spec}:model={m}:{g}:first={firstDiff} | machcount"
+    | _, _ => "bad"
   | _ => "bad"
 
 /-- `crash SPEC MODEL CODE => halt|error|running|hostcrash|died`: a generated program on a real memory model, run in a
